@@ -15,6 +15,8 @@ import (
 	"github.com/cockroachdb/pebble/sstable/block"
 	"github.com/cockroachdb/pebble/sstable/colblk"
 	"github.com/cockroachdb/pebble/sstable/tablefilters"
+	"github.com/cockroachdb/pebble/sstable/tablefilters/binaryfuse"
+	"github.com/cockroachdb/pebble/sstable/tablefilters/bloom"
 	"github.com/cockroachdb/pebble/verifharness/evid"
 	"github.com/cockroachdb/pebble/vfs"
 	"github.com/cockroachdb/pebble/wal"
@@ -644,7 +646,7 @@ func buildOptions(p OptionsPlan) (*pebble.Options, error) {
 			ol.Compression = func() *block.CompressionProfile { return prof }
 		}
 		if l.Filter != "" {
-			pol, ok := tablefilters.PolicyFromName(l.Filter)
+			pol, ok := policyFromPlan(l.Filter)
 			if !ok {
 				return nil, fmt.Errorf("bad plan: filter %q", l.Filter)
 			}
@@ -873,4 +875,30 @@ func TestC46(t *testing.T) {
 			return s
 		},
 	})
+}
+
+// policyFromPlan builds the filter policy a plan names with the constructors
+// (not with tablefilters.PolicyFromName, which is the parser under test: the
+// ParseHooks use it, and every policy a constructor accepts must survive
+// String + Parse).
+func policyFromPlan(name string) (pebble.TableFilterPolicy, bool) {
+	var a uint32
+	var m uint64
+	var f int
+	switch {
+	case name == "none":
+		return pebble.NoFilterPolicy, true
+	case name == "rocksdb.BuiltinBloomFilter":
+		return bloom.FilterPolicy(10), true
+	}
+	if n, err := fmt.Sscanf(name, "adaptive_bloom(%d,%d)", &a, &m); err == nil && n == 2 {
+		return bloom.AdaptivePolicy(a, m), true
+	}
+	if n, err := fmt.Sscanf(name, "bloom(%d)", &a); err == nil && n == 1 {
+		return bloom.FilterPolicy(a), true
+	}
+	if n, err := fmt.Sscanf(name, "binaryfuse(%d)", &f); err == nil && n == 1 {
+		return binaryfuse.FilterPolicy(f), true
+	}
+	return nil, false
 }
